@@ -49,9 +49,9 @@ func (prop) ID() string { return "C16" }
 
 func (prop) Plan(tier string) []core.Phase {
 	if tier == "thorough" {
-		return []core.Phase{{Name: "race", Race: true, Runs: 800000}, {Name: "seq", Runs: 10000000}}
+		return []core.Phase{{Name: "race", Race: true, Runs: 8000000}, {Name: "seq", Runs: 150000000}}
 	}
-	return []core.Phase{{Name: "race", Race: true, Runs: 24000}, {Name: "seq", Runs: 300000}}
+	return []core.Phase{{Name: "race", Race: true, Runs: 150000}, {Name: "seq", Runs: 3000000}}
 }
 
 func (prop) Describe() core.Description {
